@@ -23,6 +23,8 @@ fn main() {
             std::thread::spawn(move || {
                 std::thread::sleep(std::time::Duration::from_secs(limit));
                 eprintln!("[qv] {wid}: the run exceeded its wall-clock limit of {limit} s: inconclusive");
+                // do not leave children (compilers, the tool under test, workers) behind
+                let _ = std::process::Command::new("pkill").args(["-9", "-P", &std::process::id().to_string()]).status();
                 std::process::exit(2);
             });
             // a panic of the harness itself is infrastructure trouble, never a verdict
